@@ -5,7 +5,37 @@ import "fmt"
 func init() { generators["C14"] = genC14 }
 
 // genC14: a real client against the real server for hours of protocol time.
+// genC14LatePeer: a peer that is written to exactly once, at the moment the client's nonce
+// has just gone stale, and from then on only sends.
+func genC14LatePeer(p *Plan, r *RNG) {
+	baseSrvConfig(p, r)
+	p.Flavor = "e2e-late-peer"
+	p.Cfg.LatCSns = int64(r.Range(1, 60))*ms + 3
+	p.Cfg.LatSPns = int64(r.Range(1, 30))*ms + 5
+	p.Cfg.Extra = map[string]int64{}
+	p.Cfg.AllocLifeS = r.PickInt([]int{0, 600, 3600})
+	p.Clients = []ClientSpec{{ID: "c1", Addr: "10.0.1.1:4000", User: "u1", Pass: "pw-one", Kind: "real"}}
+	p.Peers = []PeerSpec{{ID: "p1", Addr: "10.0.2.1:5000"}, {ID: "p2", Addr: "10.0.2.2:5017"}}
+	p.Ops = append(p.Ops, Op{Actor: "c1", Kind: "alloc", At: gap(50 * ms)})
+	if r.Chance(2, 3) {
+		p.Ops = append(p.Ops, Op{Actor: "c1", Kind: "writeto", At: gap(int64(r.Range(500, 3000)) * ms), A: OpArgs{Peer: p.Peers[0].Addr, Len: 50}})
+	}
+	// the late peer: first (and only) write somewhere around the end of the first nonce hour
+	p.Ops = append(p.Ops, Op{Actor: "c1", Kind: "writeto", At: gap(int64(r.Range(3590, 3800)) * sec), A: OpArgs{Peer: p.Peers[1].Addr, Len: 60}})
+	t := int64(0)
+	for t < 700*sec {
+		g := int64(r.Range(5, 60)) * sec
+		t += g
+		p.Ops = append(p.Ops, Op{Actor: "p2", Kind: "peer_send", At: gap(g), A: OpArgs{Target: "c1", Len: r.Range(20, 100)}})
+	}
+	p.QuietNS = 10 * sec
+}
+
 func genC14(p *Plan, r *RNG) {
+	if r.Chance(1, 6) {
+		genC14LatePeer(p, r)
+		return
+	}
 	baseSrvConfig(p, r)
 	p.Flavor = "e2e"
 	p.Cfg.LatCSns = int64(r.Range(1, 120))*ms + int64(r.Intn(1000))*7 + 3
@@ -36,8 +66,13 @@ func genC14(p *Plan, r *RNG) {
 		p.Peers = append(p.Peers, PeerSpec{ID: fmt.Sprintf("p%d", i+1), Addr: fmt.Sprintf("10.0.2.%d:%d", 1+i, 5000+i*17)})
 	}
 	p.Ops = append(p.Ops, Op{Actor: "c1", Kind: "alloc", At: gap(50 * ms)})
-	// open every peer once (permission + channel)
-	for i := 0; i < np; i++ {
+	// some peers are first written to only late in the run (possibly with a nonce gone stale)
+	late := 0
+	if np > 1 && r.Chance(1, 2) {
+		late = r.Range(1, np-1)
+	}
+	// open the other peers at once (permission + channel)
+	for i := 0; i < np-late; i++ {
 		p.Ops = append(p.Ops, Op{Actor: "c1", Kind: "writeto", At: gap(int64(r.Range(500, 3000)) * ms), A: OpArgs{Peer: p.Peers[i].Addr, Len: r.Range(20, 200)}})
 	}
 	hours := r.Range(1, 8)
@@ -56,7 +91,10 @@ func genC14(p *Plan, r *RNG) {
 			g = int64(r.Range(50, 2000)) * ms
 		}
 		t += g
-		pi := r.Intn(np)
+		pi := r.Intn(np - late)
+		if late > 0 && t > int64(r.Range(3000, 4200))*sec {
+			pi = r.Intn(np) // the late peers join once the first nonce hour has passed
+		}
 		if r.Chance(1, 2) {
 			p.Ops = append(p.Ops, Op{Actor: "c1", Kind: "writeto", At: gap(g), A: OpArgs{Peer: p.Peers[pi].Addr, Len: r.Range(20, 300)}})
 		} else {
